@@ -19,6 +19,8 @@ import (
 
 // Params shape the generated trees (swarm-randomised per run by the callers).
 type Params struct {
+	// AllowInvalid lets patterned string leaves occasionally hold a value their patterns reject
+	AllowInvalid bool `json:",omitempty"`
 	PLeaf      float64 // probability that a leaf is set
 	PContainer float64 // probability that a container is instantiated
 	PList      float64 // probability that a list gets entries
@@ -207,6 +209,11 @@ func matchesPatterns(t *yang.YangType, s string) bool {
 }
 
 func (g *G) str(t *yang.YangType) (string, bool) {
+	if g.P.AllowInvalid && !g.forKey && t != nil && len(t.Pattern) > 0 && g.R.Intn(6) == 0 {
+		// a value that may violate the leaf's patterns (only where the caller asked for it:
+		// what Validate says about such a tree is part of the observation)
+		return g.Strs[g.R.Intn(len(g.Strs))], true
+	}
 	if !g.forKey && g.R.Intn(24) == 0 && matchesPatterns(t, "") {
 		return "", true // the empty string is a value
 	}
@@ -548,6 +555,12 @@ func (g *G) LeafValue(parent reflect.Value, ft reflect.Type, e *yang.Entry) (ref
 		n := 1 + g.R.Intn(3)
 		out := reflect.MakeSlice(ft, 0, n)
 		seen := map[string]bool{}
+		// a state (config false) leaf-list may hold one value several times (RFC 7950 7.7);
+		// drawing from a small pool twice more makes repeats likely there
+		dupsOK := e != nil && isConfigFalse(e)
+		if dupsOK {
+			n += 2
+		}
 		for i := 0; i < n; i++ {
 			var ev reflect.Value
 			var ok bool
@@ -560,7 +573,7 @@ func (g *G) LeafValue(parent reflect.Value, ft reflect.Type, e *yang.Entry) (ref
 				continue
 			}
 			r := model.Render(ev)
-			if seen[r] {
+			if seen[r] && !(dupsOK && g.R.Intn(2) == 0) {
 				continue
 			}
 			seen[r] = true
